@@ -25,9 +25,11 @@ Definition run_case (c : list (Q * Q) * (list (list Z) * list (list Z)) * (list 
 TOL = Fraction(1, 10 ** 8)
 
 FN = ["john", "jon", "mary", "maria", "james", "jame", "anna", "ana", "peter", "petr", "none", "nona", "martha", "marhta", "dixon", "dicksonx",
-      "dwayne", "duane"]
+      "dwayne", "duane", "jo", "al"]
+# whole-number quantities: SQLite types the column INTEGER, so a percentage level that divides two integers truncates there
+QTY = [3, 9, 10, 100, 95, 90, 27, 30, 12, 11, 50, 40]
 SN = ["smith", "smyth", "jones", "jonse", "brown", "browne", "taylor", "tailor", "none", "brain", "briean", "martha", "marhata", "ca", "abc",
-      "badc", "acbd"]
+      "badc", "acbd", "ng", "li"]
 # metric-distinguishing twins: restricted (OSA) vs unrestricted Damerau-Levenshtein differ on them (3 vs 2, 4 vs 3), Levenshtein vs
 # Damerau on the transpositions, Jaro vs Jaro-Winkler on the common prefixes - a wrong function binding on one backend becomes a
 # gamma difference against the DuckDB reference
@@ -57,7 +59,7 @@ def gen_pipeline(rng, idx, backends):
     for _ in range(rng.randint(12, 22)):
         c = rng.choice(COORD)
         base.append({"first_name": rng.choice(FN), "surname": rng.choice(SN), "city": rng.choice(CITY), "dob": rng.choice(DOB),
-                     "amount": rng.choice(AMT), "lat": c[0], "lng": c[1], "code": rng.choice(CODE), "postcode": rng.choice(POSTCODE), "email": rng.choice(EMAIL),
+                     "amount": rng.choice(AMT), "lat": c[0], "lng": c[1], "code": rng.choice(CODE), "qty": rng.choice(QTY), "postcode": rng.choice(POSTCODE), "email": rng.choice(EMAIL),
                      "arr": sorted(rng.sample(TOKENS, rng.randint(1, 3)))})
     for t in range(ntab):
         rows = []
@@ -66,6 +68,8 @@ def gen_pipeline(rng, idx, backends):
             for col in ("first_name", "surname"):
                 if r[col] in TWINS and rng.random() < 0.4:
                     r[col] = TWINS[r[col]]
+            if rng.random() < 0.3:
+                r["qty"] = rng.choice(QTY)
             for col, pool in (("first_name", FN), ("surname", SN), ("city", CITY), ("dob", DOB), ("amount", AMT), ("code", CODE), ("code", CODE)):
                 x = rng.random()
                 if x < 0.15:
@@ -78,12 +82,25 @@ def gen_pipeline(rng, idx, backends):
         seen = set()
         rows = [r for r in rows if not (r["unique_id"] in seen or seen.add(r["unique_id"]))]
         tables.append(rows)
+    # EMPTY strings (not NULL): exactly one record with an empty surname and one with an empty first name per pipeline (so no pair
+    # has two empty values - Jaro of two empty strings is a convention on which DuckDB and rapidfuzz differ), next to short names
+    # within the thresholds ('' vs 'ng' / 'li' / 'jo' / 'al' is Levenshtein 2)
+    allrows = [r for t in tables for r in t]
+    for col, short in (("surname", ["ng", "li"]), ("first_name", ["jo", "al"])):
+        k = rng.randrange(len(allrows))
+        allrows[k][col] = ""
+        for _ in range(3):
+            o = allrows[rng.randrange(len(allrows))]
+            if o is not allrows[k] and o[col] != "":
+                o[col] = rng.choice(short)
+                for share in ("city", "dob"):
+                    o[share] = allrows[k][share]
     specs = []
     pool = ["jw_first", "lev_sur", "exact_city_tf", "amount", "dl_sur", "jaro_first", "dist_fn", "name_cmp", "exact_dob", "km", "lev_dob", "city_custom",
-            "custom_sql", "code_cast", "sur_transformed"]
+            "custom_sql", "code_cast", "sur_transformed", "qty_pct"]
     rng.shuffle(pool)
     col_of = {"jw_first": "first_name", "jaro_first": "first_name", "name_cmp": "first_name", "lev_sur": "surname", "dl_sur": "surname",
-              "dist_fn": "surname", "exact_dob": "dob", "lev_dob": "dob", "exact_city_tf": "city", "city_custom": "city", "code_cast": "code", "sur_transformed": "surname"}
+              "dist_fn": "surname", "exact_dob": "dob", "lev_dob": "dob", "exact_city_tf": "city", "city_custom": "city", "code_cast": "code", "sur_transformed": "surname", "qty_pct": "qty"}
     chosen, used = [], set()
     for c in pool:                      # one comparison per input column (output column names must be unique)
         if col_of.get(c, c) in used:
@@ -99,6 +116,8 @@ def gen_pipeline(rng, idx, backends):
     thr_lev = rng.choice([[1, 2], 2, [1, 3]])
     if "code_cast" not in chosen and rng.random() < 0.35:
         chosen = chosen[:3] + ["code_cast"]
+    if "qty_pct" not in chosen and rng.random() < 0.35:
+        chosen = chosen[:3] + ["qty_pct"]
     if "custom_sql" in chosen:       # its levels read first_name, surname and amount
         chosen = ["custom_sql"] + [c for c in chosen if col_of.get(c, c) not in ("first_name", "surname", "amount", "custom_sql")]
         if len(chosen) < 2:
@@ -160,6 +179,10 @@ def build_settings(spec):
                 cll.PercentageDifferenceLevel("amount", 0.25), cll.ElseLevel()]))
         elif c == "km":
             comps.append(cl.DistanceInKMAtThresholds("lat", "lng", [1, 50]))
+        elif c == "qty_pct":             # percentage levels on an INTEGER-typed column
+            comps.append(cl.CustomComparison(output_column_name="qty", comparison_levels=[
+                cll.NullLevel("qty"), cll.ExactMatchLevel("qty"), cll.PercentageDifferenceLevel("qty", 0.1),
+                cll.PercentageDifferenceLevel("qty", 0.25), cll.AbsoluteDifferenceLevel("qty", 20), cll.ElseLevel()]))
         elif c == "code_cast":           # comparison creators built from transformed ColumnExpressions
             from splink.internals.column_expression import ColumnExpression
             comps.append(cl.LevenshteinAtThresholds(ColumnExpression("code").cast_to_string(), 1))
@@ -222,7 +245,7 @@ def shared_settings(case):
 def frames(case):
     out = []
     for rows in case["tables"]:
-        cols = ["unique_id", "first_name", "surname", "city", "dob", "amount", "lat", "lng", "code"]
+        cols = ["unique_id", "first_name", "surname", "city", "dob", "amount", "lat", "lng", "code", "qty"]
         used = set(case["spec"]["comparisons"])
         if "postcode" in used:
             cols.append("postcode")
@@ -235,6 +258,7 @@ def frames(case):
             if c in d:
                 d[c] = d[c].astype("string")
         d["amount"] = d["amount"].astype("float64")
+        d["qty"] = d["qty"].astype("int64")
         out.append(d)
     return out
 
